@@ -7,7 +7,7 @@ recently registered waker or none if a registration is in flight that will itsel
 wake."
 
 Headline theorems about the twin (`Model/Interp.lean`): the stage functions `World.blockOnStage`
-(`block_on(Scripted{f, mode})`, modes 0–4), `World.wakeStage` (`wake f` / `wakeref f` / `wakeq f`),
+(`block_on(Scripted{f, mode})`, modes 0–5), `World.wakeStage` (`wake f` / `wakeref f` / `wakeq f`),
 `World.awTakeStage` (`awtake f`), the `.awWake` / `.dropWaker` / `.wClone` / `.wakeH` cases of `World.runOp`,
 and the helpers `notifyWait1/2`, `notifyEffect`, `wakerClone`, `wakerDrop`.  All of them are ONE-STEP laws in
 arbitrary worlds, every hypothesis is explicit; the facts about `rt::Notify`, `rt::Mutex`, `rt::Arc` are reused
@@ -22,18 +22,21 @@ the call); mode 4 is `block_on(poll_once(future))`: ONE poll, the call returns `
 The stages of `block_on` (`c.stage`): 0 set-up (`Arc<Notify>`), 10/11 poll (flag load), 12/30/13
 register the waker in the plain slot (under the slot's mutex), 20–25 register it in the
 `AtomicWaker`, 14/15 second flag check, 15/16 the two halves of `Notify::wait`, 40/45/44/43/46
-return the output, 41 return "pending" (mode 4).  `(w.futs.getD f {})` is the record of future `f`: its `notify`
+return the output, 41 return "pending" (mode 4); mode 5 (`SelfWakeStage`): 0 set-up, 50 branch point of the
+self-wake, 51 its effect (`notifyEffect` on the call's own `Notify`) and the first half of `Notify::wait`, 53 the
+second half, 52 the second poll (Ready), 40 return the output.  `(w.futs.getD f {})` is the record of future `f`: its `notify`
 (the `rt::Notify` of the `block_on` in progress), `arc` (the waker's `Arc`), the mutexes `slotMutex` / `awMutex`,
 the two flags `slot` / `awWaker` ("a waker clone sits in the slot / in the `AtomicWaker`") and `awArc` /
 `awNotify`: WHICH call's waker sits in the `AtomicWaker`.  The acting thread's control record carries a waker
 between the stages of one operation: `taken` / `takenNotify` (a waker taken out of a slot, about to be woken /
 dropped) and `held` (clones kept by `wclone`).
 Helper lemmas: `Proofs/C20Frame.lean`, `Proofs/C20BlockOn.lean`, `Proofs/C20Handover.lean`,
-`Proofs/C20Waker.lean`.
+`Proofs/C20Waker.lean`, `Proofs/C20SelfWake.lean` (mode 5).
 -/
 import LoomVerif.Proofs.C20BlockOn
 import LoomVerif.Proofs.C20Handover
 import LoomVerif.Proofs.C20Waker
+import LoomVerif.Proofs.C20SelfWake
 import LoomVerif.Props.C07
 import LoomVerif.Props.C08
 import LoomVerif.Model.Check
@@ -43,15 +46,55 @@ open C20 C08
 
 /-! ## 0. the modes -/
 
-/-- the readiness test and the place of registration of each mode, spelled out -/
+theorem SelfWakeStage_spelled_out (n : Nat) :
+    SelfWakeStage n ↔ (n = 0 ∨ n = 50 ∨ n = 51 ∨ n = 52 ∨ n = 53 ∨ n = 40) := Iff.rfl
+
+/-- the readiness test and the place of registration of each mode, spelled out.  Modes 0–4: the readiness test is
+a flag load, the set-up stage 0 leads to the poll stage 10.  Mode 5 has no flag and no registration: the set-up
+stage 0 — the SAME set-up in every mode: the call's `Notify` (`spurious := true`) and its `Arc` (count 1) are
+appended to the objects, the `Arc` is entered in the `Arc` table, the future's record gets `notify` / `arc`,
+nothing else changes — leads to stage 50 instead, and the stages of a mode-5 call are: 50 the branch point of
+`Notify::notify` on the call's own `Notify` (`wake_by_ref` through the borrowed waker: no clone), 51 its effect
+followed by the first half of `Notify::wait` on the same object, 53 the second half, 52 the second poll — Ready:
+`ref_dec` branch point of the call's own handle —, 40 ONE `wakerDrop` and the call completes with 7 (nothing was
+registered, nothing is taken back).  None of these stages loads the flag (`primEffect`), clones the waker
+(`wakerClone`), writes the future's record (`modFut`) or touches a mutex (`postAcquire` / `releaseLock`). -/
 theorem BlockOn.modes_spelled_out (mode : Nat) :
     World.pollPrim mode = .load (if mode = 2 then .rlx else .acq) ∧
     World.pollTarget mode = .val (if mode = 2 then 2 else 1) ∧
-    (World.slotMode mode = true ↔ mode = 0 ∨ mode = 2) := by
-  refine ⟨?_, ?_, ?_⟩
+    (World.slotMode mode = true ↔ mode = 0 ∨ mode = 2) ∧
+    (∀ (w : World) (c : TCtl) (f : Nat), c.stage = 0 → ∃ w1 : World,
+      (∀ mode', w.blockOnStage c f mode' = .ok (w1.setStage (if mode' = 5 then 50 else 10))) ∧
+      w1.ctl = w.ctl ∧ w1.events = w.events ∧
+      w1.exec.objs = w.exec.objs ++ [.notify { seqCst := false, spurious := true }, .arc {}] ∧
+      w1.arcs = w.arcs ++ [({ obj := w.exec.objs.length + 1 } : ArcInfo)] ∧
+      w1.futs = w.futs.modify f (fun s => { s with notify := w.exec.objs.length, arc := w.arcs.length })) ∧
+    (∀ (w : World) (c : TCtl) (f : Nat), c.stage = 50 →
+      w.blockOnStage c f mode = (w.setStage 51).branch (w.futs.getD f {}).notify .opaque) ∧
+    (∀ (w : World) (c : TCtl) (f : Nat), c.stage = 51 → w.blockOnStage c f mode = (do
+      let w1 ← w.notifyEffect (w.futs.getD f {}).notify
+      let (w2, st) ← w1.notifyWait1 (w.futs.getD f {}).notify
+      pure (w2.modCtl w1.tid fun c => { c with stage := if st == 1 then 53 else 52 }))) ∧
+    (∀ (w : World) (c : TCtl) (f : Nat), c.stage = 53 → w.blockOnStage c f mode = (do
+      let w1 ← w.notifyWait2 (w.futs.getD f {}).notify
+      pure (w1.setStage 52))) ∧
+    (∀ (w : World) (c : TCtl) (f : Nat), c.stage = 52 → w.blockOnStage c f mode =
+      (w.setStage 40).branch (w.arcInfo (w.futs.getD f {}).arc).obj .arcDec) ∧
+    (∀ (w : World) (c : TCtl) (f : Nat), c.stage = 40 → mode = 5 → w.blockOnStage c f mode = (do
+      let w1 ← w.wakerDrop (w.futs.getD f {}).arc
+      pure (w1.complete (.val 7)))) := by
+  refine ⟨?_, ?_, ?_, ?_, fun w c f hs => blockOn_stage50 w c f mode hs,
+    fun w c f hs => blockOn_stage51 w c f mode hs, fun w c f hs => blockOn_stage53 w c f mode hs,
+    fun w c f hs => blockOn_stage52 w c f mode hs, ?_⟩
   · unfold World.pollPrim; by_cases h : mode = 2 <;> simp [h]
   · unfold World.pollTarget; by_cases h : mode = 2 <;> simp [h]
   · unfold World.slotMode; simp
+  · intro w c f hs
+    obtain ⟨h1, h2, h3, h4, h5⟩ := setUp_facts w f
+    exact ⟨setUp w f, fun mode' => blockOn_stage0 w c f mode' hs, h1, h2, h3, h4, h5⟩
+  · intro w c f hs hm
+    subst hm
+    exact blockOn_stage40_selfWake w c f hs
 
 /-! ## 1. `BlockOn.repolls_only_after_wake` -/
 
@@ -64,7 +107,17 @@ stage 15 when the flag load did not return the ready value, the call is not poll
 stage is 16).  At stage 15 with the future pending the step ALWAYS goes through `notifyWait1` — never directly
 to 10 — or, in mode 4, to the "pending" return 41.
 (d) A poll-once call (mode 4) polls ONCE: after the set-up no stage but 16 moves a thread to stage 10, and
-stage 16 is entered only from stage 15 of a call that is not poll-once. -/
+stage 16 is entered only from stage 15 of a call that is not poll-once.
+(e) Mode 5 (the future wakes itself in its first poll).  The call never reaches the flag-load poll stage 10 from
+its set-up; its stages are entered in this order only: 50 only from the set-up stage 0 of a mode-5 call, 51 only
+from 50, 53 only from 51, and the SECOND poll — stage 52 — only from 51 or 53.  Stage 50 is the branch point of
+`Notify::notify` on the call's own `Notify`.  Stage 51 ALWAYS performs `notifyEffect` on the call's own `Notify`
+first — the self-wake is never skipped: the flag is set (`notified := true`, the thread's clocks released into the
+object) — and only then the first half of `Notify::wait` on the same object, which therefore does NOT block
+(`block := false`): it goes on to stage 53, or — the one modelled spurious return, `st = 2`: `did_spur` goes from
+`false` to `true` — directly to 52; the flag is still set afterwards.  Stage 53 is the second half of
+`Notify::wait`, which returns only if the flag is set — after a notification, which it consumes — and leads to
+52. -/
 theorem BlockOn.repolls_only_after_wake (w w' : World) (c : TCtl) (f mode : Nat)
     (h : w.blockOnStage c f mode = .ok w') :
     (c.stage ≠ 0 → c.stage ≠ 15 → c.stage ≠ 16 →
@@ -88,9 +141,48 @@ theorem BlockOn.repolls_only_after_wake (w w' : World) (c : TCtl) (f mode : Nat)
                 (st = 2 ∧ d = true ∧ s.didSpur = false ∧ s.spurious = true)))) ∧
     (mode = 4 → c.stage ≠ 0 → c.stage ≠ 16 →
       ∀ t, (w'.ctlOf t).stage = 10 → (w.ctlOf t).stage = 10) ∧
-    ((c.stage ≠ 15 ∨ mode = 4) → ∀ t, (w'.ctlOf t).stage = 16 → (w.ctlOf t).stage = 16) := by
+    ((c.stage ≠ 15 ∨ mode = 4) → ∀ t, (w'.ctlOf t).stage = 16 → (w.ctlOf t).stage = 16) ∧
+    (mode = 5 → c.stage ≠ 15 → c.stage ≠ 16 →
+      ∀ t, (w'.ctlOf t).stage = 10 → (w.ctlOf t).stage = 10) ∧
+    ((c.stage ≠ 0 ∨ mode ≠ 5) → ∀ t, (w'.ctlOf t).stage = 50 → (w.ctlOf t).stage = 50) ∧
+    (c.stage ≠ 50 → ∀ t, (w'.ctlOf t).stage = 51 → (w.ctlOf t).stage = 51) ∧
+    (c.stage ≠ 51 → ∀ t, (w'.ctlOf t).stage = 53 → (w.ctlOf t).stage = 53) ∧
+    (c.stage ≠ 51 → c.stage ≠ 53 → ∀ t, (w'.ctlOf t).stage = 52 → (w.ctlOf t).stage = 52) ∧
+    (c.stage = 50 → (w.setStage 51).branch (w.futs.getD f {}).notify .opaque = .ok w') ∧
+    (c.stage = 51 →
+      ∃ w1 w2 st, w.notifyEffect (w.futs.getD f {}).notify = .ok w1 ∧
+        w1.notifyWait1 (w.futs.getD f {}).notify = .ok (w2, st) ∧
+        w' = w2.modCtl w1.tid (fun c => { c with stage := if st == 1 then 53 else 52 }) ∧
+        ∀ s, w.exec.objs[(w.futs.getD f {}).notify]? = some (.notify s) →
+          ∃ s1, s1 = { s with sync := s.sync.store w.ths.activeT.released w.ths.caus .rel,
+                              notified := true } ∧
+            w1.exec.objs[(w.futs.getD f {}).notify]? = some (.notify s1) ∧
+            ((s.spurious && !s.didSpur) = false →
+              w1.notifyWait1 (w.futs.getD f {}).notify =
+                (w1.branch (w.futs.getD f {}).notify .opaque (block := false)).map (·, 1)) ∧
+            (s.spurious = true → s.didSpur = false →
+              w1.notifyWait1 (w.futs.getD f {}).notify =
+                match w1.exec.path.branchSpurious w1.panicking with
+                | .error e => .error e
+                | .ok (p, true) =>
+                  (((w1.setPath p).setObj (w.futs.getD f {}).notify
+                    (.notify { s1 with didSpur := true })).yieldNow).map (·, 2)
+                | .ok (p, false) =>
+                  ((w1.setPath p).branch (w.futs.getD f {}).notify .opaque (block := false)
+                    (wait := false)).map (·, 1)) ∧
+            ∃ a d, w2.exec.objs[(w.futs.getD f {}).notify]? =
+                some (.notify { s1 with lastAccess := a, didSpur := d }) ∧
+              ((st = 1 ∧ d = s.didSpur) ∨
+                (st = 2 ∧ d = true ∧ s.didSpur = false ∧ s.spurious = true))) ∧
+    (c.stage = 53 →
+      ∃ w1, w.notifyWait2 (w.futs.getD f {}).notify = .ok w1 ∧ w' = w1.setStage 52 ∧
+        ∀ s, w.exec.objs[(w.futs.getD f {}).notify]? = some (.notify s) →
+          s.notified = true ∧
+          w1.exec.objs[(w.futs.getD f {}).notify]? = some (.notify { s with notified := false })) := by
   refine ⟨fun h0 h15 h16 => blockOn_noRepoll h h0 h15 h16, ?_, ?_, ?_,
-    fun h15 => blockOn_noWait h h15⟩
+    fun h15 => blockOn_noWait h h15, ?_, fun h0 => blockOn_noEnter50 h h0,
+    fun h50 => blockOn_noEnter51 h h50, fun h51 => blockOn_noEnter53 h h51,
+    fun h51 h53 => blockOn_noEnter52 h h51 h53, ?_, ?_, ?_⟩
   · intro hs
     rw [blockOn_stage16 w c f mode hs] at h
     obtain ⟨w1, h1, h2⟩ := bind_ok h
@@ -117,6 +209,33 @@ theorem BlockOn.repolls_only_after_wake (w w' : World) (c : TCtl) (f mode : Nat)
   · intro hm h0 h16
     subst hm
     exact blockOn_noRepoll4 h h0 h16
+  · intro hm h15 h16
+    subst hm
+    exact blockOn_noRepoll5 h h15 h16
+  · intro hs
+    rw [blockOn_stage50 w c f mode hs] at h
+    exact h
+  · intro hs
+    rw [blockOn_stage51 w c f mode hs] at h
+    obtain ⟨w1, h1, h2⟩ := bind_ok h
+    obtain ⟨⟨w2, st⟩, h3, h4⟩ := bind_ok h2
+    cases h4
+    refine ⟨w1, w2, st, h1, h3, rfl, fun s hn => ?_⟩
+    obtain ⟨he, _⟩ := Notify.notify_effect w _ s hn
+    have hn1 : w1.exec.objs[(w.futs.getD f {}).notify]? = some (.notify
+        { s with sync := s.sync.store w.ths.activeT.released w.ths.caus .rel, notified := true }) := by
+      rw [h1] at he
+      cases he
+      exact Sy.getElem?_set_self' _ _ _ _ hn
+    refine ⟨_, rfl, hn1, fun hsp => ?_, fun hsp hd => ?_, Notify.wait_first_half_object hn1 h3⟩
+    · exact (Notify.flag_not_lost hn h1 hn1 (.refl _) hn1).2.1 hsp
+    · exact Notify.wait_first_half_may_spur w1 _ _ hn1 hsp hd
+  · intro hs
+    rw [blockOn_stage53 w c f mode hs] at h
+    obtain ⟨w1, h1, h2⟩ := bind_ok h
+    cases h2
+    exact ⟨w1, h1, rfl, fun s hn =>
+      ⟨(Wait.only_after_notify hn h1).1, (Wait.only_after_notify hn h1).2.1⟩⟩
 
 /-- … and the spurious return happens at most once per `block_on`: every `block_on` creates its
 own `Notify` (stage 0: a fresh last object, `spurious := true`, `did_spur = false`), and after one
@@ -279,11 +398,19 @@ theorem CompletesOnlyWith_spelled_out (r : Ret) (w w' : World) :
 or second check, stage 15) proceeds to the return path (stage 40).  The return path: 40 drops the
 `block_on`'s own handle and — slot modes / mode 1 — locks the slot's / the `AtomicWaker`'s mutex (→ 45 / 44),
 45 / 44 take a still registered waker out (→ 43 / 46 drop it) and complete; modes 3 and 4 complete in stage 40
-(the registration stays).  The operation completes (records an event) in NO stage other than 40 (modes 3, 4
-only), 41, 43, 44, 45, 46, and with the result `.val 7` (the scripted future's output) in every stage but 41.
+(the registration stays), and so does mode 5 (nothing was registered).  The operation completes (records an
+event) in NO stage other than 40 (modes 3, 4, 5 only), 41, 43, 44, 45, 46, and with the result `.val 7` (the
+scripted future's output) in every stage but 41.
 Stage 41 completes with `.val 0` ("pending"); it is entered ONLY from stage 15 of a poll-once call (mode 4)
 whose flag load did not return the ready value: in every other mode `block_on` returns only `.val 7`, and a
-poll-once call returns 0 only after its one poll found the future pending. -/
+poll-once call returns 0 only after its one poll found the future pending.
+Mode 5: the second poll (stage 52) is Ready — it leads to the return path 40 —, and stage 40 is entered from NO
+stage other than a flag load (11, 15) and 52.  The stages of a mode-5 call (`SelfWakeStage`: 0, 50, 51, 52, 53,
+40) are CLOSED: a step of a mode-5 call in one of them leaves every thread's stage as it was or moves it to one
+of them (0: the call completed) — the call never gets to a flag load, a registration, the "pending" return 41 or a
+take-back stage; so its stage 40 is reached only via 52.  It records an event only in stage 40, only the
+completion with `.val 7`: stage 40 of a mode-5 call is ONE `wakerDrop` of the call's own handle followed by the
+completion with 7. -/
 theorem BlockOn.returns_output (w w' : World) (c : TCtl) (f mode : Nat)
     (h : w.blockOnStage c f mode = .ok w') :
     ((c.stage = 11 ∨ c.stage = 15) →
@@ -292,7 +419,7 @@ theorem BlockOn.returns_output (w w' : World) (c : TCtl) (f mode : Nat)
           (w1.setStage 40).branch (w.arcInfo (w.futs.getD f {}).arc).obj .arcDec = .ok w')) ∧
     (c.stage ≠ 40 → c.stage ≠ 41 → c.stage ≠ 43 → c.stage ≠ 44 → c.stage ≠ 45 → c.stage ≠ 46 →
       w'.events = w.events) ∧
-    (c.stage = 40 → mode ≠ 3 → mode ≠ 4 → w'.events = w.events) ∧
+    (c.stage = 40 → mode ≠ 3 → mode ≠ 4 → mode ≠ 5 → w'.events = w.events) ∧
     (c.stage ≠ 41 → CompletesOnlyWith (.val 7) w w') ∧
     (c.stage = 41 → CompletesOnlyWith (.val 0) w w') ∧
     ((c.stage ≠ 15 ∨ mode ≠ 4) → ∀ t, (w'.ctlOf t).stage = 41 → (w.ctlOf t).stage = 41) ∧
@@ -304,8 +431,8 @@ theorem BlockOn.returns_output (w w' : World) (c : TCtl) (f mode : Nat)
       ((World.slotMode mode = true ∧ ∃ m, w1.getMutex (w.futs.getD f {}).slotMutex = .ok m ∧
           (w1.setStage 45).branch (w.futs.getD f {}).slotMutex .opaque (block := m.lock.isSome) (wait := true)
             = .ok w') ∨
-       (World.slotMode mode = false ∧ (mode = 3 ∨ mode = 4) ∧ w' = w1.complete (.val 7)) ∨
-       (World.slotMode mode = false ∧ mode ≠ 3 ∧ mode ≠ 4 ∧
+       (World.slotMode mode = false ∧ (mode = 3 ∨ mode = 4 ∨ mode = 5) ∧ w' = w1.complete (.val 7)) ∨
+       (World.slotMode mode = false ∧ mode ≠ 3 ∧ mode ≠ 4 ∧ mode ≠ 5 ∧
           ∃ m, w1.getMutex (w.futs.getD f {}).awMutex = .ok m ∧
           (w1.setStage 44).branch (w.futs.getD f {}).awMutex .opaque (block := m.lock.isSome) (wait := true)
             = .ok w'))) ∧
@@ -313,9 +440,20 @@ theorem BlockOn.returns_output (w w' : World) (c : TCtl) (f mode : Nat)
       w' = w1.complete (.val 0)) ∧
     (c.stage = 43 → ∃ w1, w.wakerDrop (w.futs.getD f {}).arc = .ok w1 ∧
       w' = w1.complete (.val 7)) ∧
-    (c.stage = 46 → ∃ w1, w.wakerDrop c.taken = .ok w1 ∧ w' = w1.complete (.val 7)) := by
+    (c.stage = 46 → ∃ w1, w.wakerDrop c.taken = .ok w1 ∧ w' = w1.complete (.val 7)) ∧
+    (c.stage = 52 →
+      (w.setStage 40).branch (w.arcInfo (w.futs.getD f {}).arc).obj .arcDec = .ok w') ∧
+    (c.stage ≠ 11 → c.stage ≠ 15 → c.stage ≠ 52 →
+      ∀ t, (w'.ctlOf t).stage = 40 → (w.ctlOf t).stage = 40) ∧
+    (mode = 5 → SelfWakeStage c.stage →
+      (∀ t, (w'.ctlOf t).stage = (w.ctlOf t).stage ∨ SelfWakeStage (w'.ctlOf t).stage) ∧
+      (c.stage ≠ 40 → w'.events = w.events) ∧
+      CompletesOnlyWith (.val 7) w w') ∧
+    (c.stage = 40 → mode = 5 →
+      ∃ w1, w.wakerDrop (w.futs.getD f {}).arc = .ok w1 ∧ w' = w1.complete (.val 7)) := by
   obtain ⟨he1, he2, he3, he4⟩ := blockOn_events h
-  refine ⟨?_, he1, he2, he3, he4, fun h15 => blockOn_noPending h h15, ?_, ?_, ?_, ?_, ?_⟩
+  refine ⟨?_, he1, he2, he3, he4, fun h15 => blockOn_noPending h h15, ?_, ?_, ?_, ?_, ?_, ?_,
+    fun h11 h15 h52 => blockOn_noEnter40 h h11 h15 h52, ?_, ?_⟩
   · rintro (hs | hs)
     · rw [blockOn_stage11 w c f mode hs] at h
       obtain ⟨⟨w1, r⟩, h1, h2⟩ := bind_ok h
@@ -343,18 +481,20 @@ theorem BlockOn.returns_output (w w' : World) (c : TCtl) (f mode : Nat)
       exact .inl ⟨rfl, m, h3, h4⟩
     | false =>
       simp only [hsm, Bool.false_eq_true, if_false] at h2
-      by_cases hm : mode = 3 ∨ mode = 4
-      · have hb : (mode == 3 || mode == 4) = true := by simpa using hm
+      by_cases hm : mode = 3 ∨ mode = 4 ∨ mode = 5
+      · have hb : (mode == 3 || mode == 4 || mode == 5) = true := by
+          simpa [or_assoc] using hm
         simp only [hb, if_true] at h2
         cases h2
         exact .inr (.inl ⟨rfl, hm, rfl⟩)
-      · have hb : (mode == 3 || mode == 4) = false := by
-          cases hbb : (mode == 3 || mode == 4) with
+      · have hb : (mode == 3 || mode == 4 || mode == 5) = false := by
+          cases hbb : (mode == 3 || mode == 4 || mode == 5) with
           | false => rfl
-          | true => exact absurd (by simpa using hbb) hm
+          | true => exact absurd (by simpa [or_assoc] using hbb) hm
         simp only [hb, Bool.false_eq_true, if_false] at h2
         obtain ⟨m, h3, h4⟩ := bind_ok h2
-        exact .inr (.inr ⟨rfl, fun e => hm (.inl e), fun e => hm (.inr e), m, h3, h4⟩)
+        exact .inr (.inr ⟨rfl, fun e => hm (.inl e), fun e => hm (.inr (.inl e)),
+          fun e => hm (.inr (.inr e)), m, h3, h4⟩)
   · intro hs
     rw [blockOn_stage41 w c f mode hs] at h
     obtain ⟨w1, h1, h2⟩ := bind_ok h
@@ -367,6 +507,19 @@ theorem BlockOn.returns_output (w w' : World) (c : TCtl) (f mode : Nat)
     exact ⟨w1, h1, rfl⟩
   · intro hs
     rw [blockOn_stage46 w c f mode hs] at h
+    obtain ⟨w1, h1, h2⟩ := bind_ok h
+    cases h2
+    exact ⟨w1, h1, rfl⟩
+  · intro hs
+    rw [blockOn_stage52 w c f mode hs] at h
+    exact h
+  · intro hm hc
+    subst hm
+    refine ⟨blockOn_selfWake_closed h hc, fun h40 => blockOn_selfWake_events h hc h40, he3 ?_⟩
+    rcases hc with e | e | e | e | e | e <;> omega
+  · intro hs hm
+    subst hm
+    rw [blockOn_stage40_selfWake w c f hs] at h
     obtain ⟨w1, h1, h2⟩ := bind_ok h
     cases h2
     exact ⟨w1, h1, rfl⟩
@@ -390,7 +543,11 @@ waker: `awArc`, `awNotify`), and the mutex is released in the same stage, or —
 dropped — in stage 25 (`wakerDrop` of the older waker, handed over in `c.taken`, then `releaseLock`).
 (c) `.awWake` stage 2, `awtake` stage 1 and `block_on` stage 44: `postAcquire` must succeed ("expected to be
 able to acquire lock" otherwise), THEN `awWaker := false`, THEN `releaseLock` — in the same stage; the waker
-taken out is handed to the next stage in `c.taken` (and `c.takenNotify`). -/
+taken out is handed to the next stage in `c.taken` (and `c.takenNotify`).
+(d) A mode-5 call does not touch the `AtomicWaker`: in every one of its stages (`SelfWakeStage`) no `awWaker`
+and no registered identity (`awArc`, `awNotify`) changes, the futures' table is written by the set-up stage only
+(`notify`, `arc`), and EVERY mutex object — the `AtomicWaker`'s among them — is as before (`lock`, `sync`; up to
+the scheduler's access record): the call neither locks nor unlocks anything. -/
 theorem AtomicWaker.lock_protocol (w w' : World) (c : TCtl) (f mode : Nat) :
     (w.blockOnStage c f mode = .ok w' → c.stage ≠ 21 → c.stage ≠ 44 → AwKept w w') ∧
     (∀ b st, w.wakeStage c f b st = .ok w' → AwKept w w') ∧
@@ -455,14 +612,25 @@ theorem AtomicWaker.lock_protocol (w w' : World) (c : TCtl) (f mode : Nat) :
       if (w1.futs.getD f {}).awWaker then
         let w4 := w3.modCtl w3.tid fun c => { c with taken := (w.futs.getD f {}).awArc }
         (w4.setStage 2).branch (w4.arcInfo (w.futs.getD f {}).awArc).obj .arcDec
-      else pure (w3.complete .unit))) := by
+      else pure (w3.complete .unit))) ∧
+    (mode = 5 → SelfWakeStage c.stage → w.blockOnStage c f mode = .ok w' →
+      AwKept w w' ∧ AwIdKept w w' ∧ (c.stage ≠ 0 → w'.futs = w.futs) ∧
+      ∀ (o : Nat) (m : MutexSt), w.exec.objs[o]? = some (.mutex m) →
+        ∃ a, w'.exec.objs[o]? = some (.mutex { m with lastAccess := a })) := by
   refine ⟨fun h h1 h2 => blockOn_awKept h h1 h2, fun _ _ h => wake_awKept h,
     fun h => (dropWaker_frames h).2.1, fun h h2 => (awWake_frames h).2.2 h2,
     fun h => wake_awKept (by rwa [wakeQ_eq] at h), fun h h1 => (awTake_frames h).2.2.1 h1,
     fun h => (wClone_frames h).2.2.1, fun h => (wakeH_frames h).2.2.1, ?_,
     fun hs => blockOn_stage22 w c f mode hs, fun hs => blockOn_stage23 w c f mode hs,
     fun hs => blockOn_stage25 w c f mode hs, fun hs => awWake_stage2 w c f hs,
-    fun hs => blockOn_stage44 w c f mode hs, fun hs => awTake_stage1 w c f hs⟩
+    fun hs => blockOn_stage44 w c f mode hs, fun hs => awTake_stage1 w c f hs, ?_⟩
+  rotate_left
+  · intro hm hc h
+    subst hm
+    have hne : c.stage ≠ 21 ∧ c.stage ≠ 44 := by
+      rcases hc with e | e | e | e | e | e <;> omega
+    exact ⟨blockOn_awKept h hne.1 hne.2, blockOn_awIdKept h hne.1,
+      fun h0 => blockOn_selfWake_futs h hc h0, blockOn_selfWake_locks h hc⟩
   intro m hs hm
   constructor
   · intro hl
@@ -563,7 +731,10 @@ succeed ("expected to be able to acquire lock" otherwise) and the `releaseLock` 
 stage, or (register, an older waker has to be dropped) in stage 13 (`wakerDrop`, `releaseLock`);
 `wakeref` / `wakeq` hold the mutex across their `notifyEffect` (stage 5) and never write the slot; `wclone`
 READS the slot under the mutex (stage 1) and holds it across the waker's `ref_inc` (a scheduling point) until
-the clone is made (stage 2: `wakerClone`, `releaseLock`). -/
+the clone is made (stage 2: `wakerClone`, `releaseLock`).
+(c) A mode-5 call does not touch the slot: in every one of its stages (`SelfWakeStage`) no `slot` changes, the
+futures' table is written by the set-up stage only, and EVERY mutex object — the slot's among them — is as before
+(up to the scheduler's access record). -/
 theorem Slot.lock_protocol (w w' : World) (c : TCtl) (f mode : Nat) :
     (w.blockOnStage c f mode = .ok w' → c.stage ≠ 30 → c.stage ≠ 45 → SlotKept w w') ∧
     (∀ b st, w.wakeStage c f b st = .ok w' → (c.stage ≠ 2 ∨ b = false) → SlotKept w w') ∧
@@ -621,14 +792,25 @@ theorem Slot.lock_protocol (w w' : World) (c : TCtl) (f mode : Nat) :
       (m.lock.isSome = true → w.postAcquire (w.futs.getD f {}).slotMutex = .ok (w, false)) ∧
       (m.lock = none → ∃ w1, w.postAcquire (w.futs.getD f {}).slotMutex = .ok (w1, true) ∧
         w1.exec.objs[(w.futs.getD f {}).slotMutex]? =
-          some (.mutex { m with lock := some w.tid }))) := by
+          some (.mutex { m with lock := some w.tid }))) ∧
+    (mode = 5 → SelfWakeStage c.stage → w.blockOnStage c f mode = .ok w' →
+      SlotKept w w' ∧ (c.stage ≠ 0 → w'.futs = w.futs) ∧
+      ∀ (o : Nat) (m : MutexSt), w.exec.objs[o]? = some (.mutex m) →
+        ∃ a, w'.exec.objs[o]? = some (.mutex { m with lastAccess := a })) := by
   refine ⟨fun h h1 h2 => blockOn_slotKept h h1 h2, fun _ _ h h2 => wake_slotKept h h2,
     fun h h1 => (dropWaker_frames h).2.2 h1, fun h => (awWake_frames h).2.1,
     fun h => wake_slotKept (by rwa [wakeQ_eq] at h) (.inr rfl), fun h => (awTake_frames h).2.1,
     fun h => (wClone_frames h).2.1, fun h => (wakeH_frames h).2.1,
     fun hs => blockOn_stage30 w c f mode hs, fun hs => blockOn_stage13 w c f mode hs,
     fun hs => blockOn_stage45 w c f mode hs, fun hs => dropWaker_stage1 w c f hs,
-    fun hs => wClone_stage1 w c f hs, fun hs => wClone_stage2 w c f hs, ?_⟩
+    fun hs => wClone_stage1 w c f hs, fun hs => wClone_stage2 w c f hs, ?_, ?_⟩
+  rotate_left
+  · intro hm hc h
+    subst hm
+    have hne : c.stage ≠ 30 ∧ c.stage ≠ 45 := by
+      rcases hc with e | e | e | e | e | e <;> omega
+    exact ⟨blockOn_slotKept h hne.1 hne.2, fun h0 => blockOn_selfWake_futs h hc h0,
+      blockOn_selfWake_locks h hc⟩
   intro m hm
   refine ⟨fun hl => C07.postAcquire_held hm hl, fun hl => ?_⟩
   obtain ⟨w1, hp, _, hfree⟩ := Lock.try_exact w _ m hm
@@ -652,7 +834,12 @@ The three operations that move a reference without a `block_on`: `wclone` (+1: i
 `wakerClone` of the slot's waker, recorded in `held`), `wakeh` (−1: its last stage is ONE `wakerDrop` of the
 clone held, which is forgotten; nothing if the thread holds none), `awtake` (−1: its last stage is ONE
 `wakerDrop` of the waker its stage 1 took out of the `AtomicWaker`, `c.taken = awArc`; stage 1 completes
-without a drop if nothing was registered). -/
+without a drop if nothing was registered).
+A mode-5 `block_on` (the future wakes itself by reference): the set-up stage 0 (of any mode) creates the call's
+`Arc` with count 1 — `std` count 1, registered; the stages 50, 51, 52, 53 perform NO `wakerClone` and no drop:
+the `Arc` table, the futures' table and the count of EVERY `Arc` object are as before; the return stage 40 is
+exactly ONE `wakerDrop` — of the call's own handle `(w.futs.getD f {}).arc` — followed by the completion: one
+reference created, one dropped. -/
 theorem Waker.refcount_balance (w w' : World) (a : Nat) (s : ArcSt) (ha : a < w.arcs.length)
     (hg : w.getArc (w.arcInfo a).obj = .ok s) :
     (w.wakerClone a = .ok
@@ -695,11 +882,39 @@ theorem Waker.refcount_balance (w w' : World) (a : Nat) (s : ArcSt) (ha : a < w.
       ((w.futs.getD f {}).awWaker = true →
         (w'.ctlOf w.tid).taken = (w.futs.getD f {}).awArc ∧ (w'.ctlOf w.tid).stage = 2) ∧
       ((w.futs.getD f {}).awWaker = false →
-        (w'.ctlOf w.tid).stage = 0 ∧ (w'.ctlOf w.tid).pc = (w.ctlOf w.tid).pc + 1)) := by
+        (w'.ctlOf w.tid).stage = 0 ∧ (w'.ctlOf w.tid).pc = (w.ctlOf w.tid).pc + 1)) ∧
+    (∀ (c : TCtl) (f mode : Nat), c.stage = 0 → w.blockOnStage c f mode = .ok w' →
+      w'.exec.objs = w.exec.objs ++
+        [.notify { seqCst := false, spurious := true }, .arc { refCnt := 1 }] ∧
+      w'.arcs = w.arcs ++
+        [({ obj := w.exec.objs.length + 1, stdCount := 1, registered := true } : ArcInfo)] ∧
+      ((w'.futs.getD f {}).arc = w.arcs.length ∨ ¬ f < w.futs.length)) ∧
+    (∀ (c : TCtl) (f mode : Nat), (c.stage = 50 ∨ c.stage = 51 ∨ c.stage = 52 ∨ c.stage = 53) →
+      w.blockOnStage c f mode = .ok w' →
+      w'.arcs = w.arcs ∧ w'.futs = w.futs ∧
+      ∀ (o : Nat) (s0 : ArcSt), w.exec.objs[o]? = some (.arc s0) →
+        ∃ s1 : ArcSt, w'.exec.objs[o]? = some (.arc s1) ∧ s1.refCnt = s0.refCnt) ∧
+    (∀ (c : TCtl) (f : Nat), c.stage = 40 → w.blockOnStage c f 5 = (do
+      let w1 ← w.wakerDrop (w.futs.getD f {}).arc
+      pure (w1.complete (.val 7)))) := by
   refine ⟨wakerClone_eq hg, fun h => wakerClone_counts ha hg h, wakerDrop_eq w a, ?_,
     fun h => wakerDrop_counts ha hg h, fun c f hs => wClone_stage2 w c f hs,
     fun c f a' n hh hs => wakeH_stage2 w c f a' n hh hs, fun c f hh => wakeH_none w c f hh,
-    fun c f hs => awTake_stage2 w c f hs, fun c f hs h hf ht => (awTake_take hs h hf ht).2⟩
+    fun c f hs => awTake_stage2 w c f hs, fun c f hs h hf ht => (awTake_take hs h hf ht).2,
+    ?_, fun c f mode hc h => blockOn_selfWake_counts h hc,
+    fun c f hs => blockOn_stage40_selfWake w c f hs⟩
+  rotate_left
+  · intro c f mode hs h
+    rw [blockOn_stage0 w c f mode hs] at h
+    cases h
+    obtain ⟨_, _, h3, h4, h5⟩ := setUp_facts w f
+    refine ⟨h3, h4, ?_⟩
+    by_cases hf : f < w.futs.length
+    · left
+      show ((setUp w f).futs.getD f {}).arc = _
+      rw [h5]
+      simp [List.getD_eq_getElem?_getD, hf]
+    · exact .inr hf
   obtain ⟨h1, h2, h3⟩ := ArcObj.refines_refcount_refDec w _ s hg
   constructor
   · intro h
@@ -759,6 +974,11 @@ def heldCloneSummary (p : Prog) : (Nat × Bool × Bool) × List (List Ret) :=
   (summary p, ((Check.loop p 1000 1 (Check.initExec p.cfg)).1.map fun it =>
     (it.result.events.filter (fun e => e.tid == 1 && e.pc == 0)).map (·.ret)).eraseDups)
 
+/-- the self-waking program `cfg x=1 f=1 | T0: blockon 0 5` (the text `Prog.parse` reads; the parser works on
+strings and does not reduce in the kernel, so the parsed program is given; no preemption bound): one thread, one
+`block_on` of a future that wakes itself by reference in its first poll -/
+def selfWake : Prog := { cfg := { nAtomics := 1, nFutures := 1 }, threads := [[.blockOn 0 5]] }
+
 end C20.Ex
 
 open C20.Ex in
@@ -804,5 +1024,17 @@ others; in EVERY execution `block_on` returns 7, nothing deadlocks and nothing l
 theorem BlockOn.example_held_clone :
     heldCloneSummary heldClone = ((18, true, true), [[.val 1], [.val 0]]) := by
   decide +kernel
+
+open C20.Ex in
+/-- the self-waking future: `cfg x=1 f=1 | T0: blockon 0 5` (`Ex.selfWake`).
+`Builder::check` (`Check.run`) explores the program completely, in 2 executions — the wait after the first poll
+consumes the call's own notification, or takes its one modelled spurious return —; EVERY execution ends without
+a panic — no deadlock: the self-wake is not lost although no clone of the waker exists; no leak: the waker's `Arc`
+is released — and its only event is the `block_on` (thread 0, pc 0) returning 7. -/
+theorem BlockOn.example_self_wake :
+    (Check.run selfWake).2 = .completed ∧ (Check.run selfWake).1.length = 2 ∧
+    (Check.run selfWake).1.all (fun it => it.result.term.isNone &&
+      it.result.events.map (fun e => (e.tid, e.pc, e.ret)) == [(0, 0, .val 7)]) = true := by
+  refine ⟨?_, ?_, ?_⟩ <;> decide +kernel
 
 end LoomVerif
